@@ -29,6 +29,8 @@ class Refs(object):
         self.notes = []
         self._rec_direct = {}
         self._frozen = {}
+        self._abs_tol = 0.0
+        self._model_err = 0.0
         self.timed_out = False
         self.tasks = []
 
@@ -228,15 +230,24 @@ class Refs(object):
         """Taylor coefficients of every Jacobian entry along x(t), from forward mode alone.
         With g(t, s) = f(x(t) + s e_j), the coefficient of t^d in J_ij(x(t)) is g_{d,1}.  The
         univariate h_k(tau) = f(x(tau) + k tau e_j) has tau^(d+1)-coefficient sum_b k^b g_{d+1-b,b},
-        a polynomial of degree <= d+1 in k whose linear coefficient is g_{d,1}; propagate
-        k = 0..D with degree D+1 and interpolate exactly (Vandermonde system in rationals)."""
+        a polynomial of degree <= d+1 in k whose linear coefficient is g_{d,1}; propagate D+1
+        values of k with degree D+1 and interpolate (Vandermonde system solved in rationals).
+        The propagated coefficients can be many orders of magnitude larger than the result
+        (sin of a large argument), so the model carries its own error estimate: it is evaluated
+        on two node sets and the disagreement between the two bounds its rounding error."""
+        D = data.shape[0]
+        a = self._curve_model(prog, data, list(range(D + 1)))
+        nodes_b = [0] + [((-1) ** i) * ((i + 1) // 2) for i in range(1, D + 1)]      # 0, -1, 1, -2, 2, ...
+        b = self._curve_model(prog, data, nodes_b)
+        self._model_err = float(numpy.max(numpy.abs(a - b)))
+        return a
+
+    def _curve_model(self, prog, data, ks):
         from fractions import Fraction
         al = self.al
         D, P, N = data.shape
-        ks = list(range(D + 1))
-        # exact inverse of the Vandermonde matrix V[a][b] = k_a^b
-        V = [[Fraction(k) ** b for b in range(D + 1)] for k in ks]
         n = D + 1
+        V = [[Fraction(k) ** b for b in range(n)] for k in ks]
         A = [row[:] + [Fraction(int(i == r)) for i in range(n)] for r, row in enumerate(V)]
         for c in range(n):
             piv = next(r for r in range(c, n) if A[r][c] != 0)
@@ -246,7 +257,7 @@ class Refs(object):
             for r in range(n):
                 if r != c and A[r][c] != 0:
                     f = A[r][c]
-                    A[r] = [a - f * b for a, b in zip(A[r], A[c])]
+                    A[r] = [x - f * y for x, y in zip(A[r], A[c])]
         Vinv = numpy.array([[float(v) for v in row[n:]] for row in A])      # coefficients = Vinv . values
         out = None
         for p in range(P):
@@ -297,7 +308,13 @@ class Refs(object):
                 a = numpy.ascontiguousarray(a)
                 return {'k': 'utpm', 'sh': list(a.shape), 'dt': a.dtype.str, 'hx': a.tobytes().hex()}
             try:
-                out['forward'] = as_utpm(self.forward_jacobian_along_curve(prog, data))
+                fw = self.forward_jacobian_along_curve(prog, data)
+                if self._model_err <= 1e-6 * max(1.0, float(numpy.max(numpy.abs(fw)))):
+                    out['forward'] = as_utpm(fw)
+                    self._abs_tol = 1e-8 + 50.0 * self._model_err
+                else:
+                    # the interpolation is too ill-conditioned at this point to serve as truth
+                    self.count('truth_skipped:curve_model_inaccurate')
             except Exception as e:
                 self.notes.append('forward truth (curve) raised: %s' % type(e).__name__)
             if prog['exact']:
@@ -592,6 +609,7 @@ class Refs(object):
 
     def judge_truth(self, ev, step, prog, got):
         name = step['name']
+        self._abs_tol = 0.0
         if name == 'jacobian_utpm':
             base = numpy.array(step['x'], dtype=float)[0, 0]
         else:
@@ -617,7 +635,7 @@ class Refs(object):
             self.verdict('C04', oracle, ev, False, got=brief(got), want=codec.short(want), driver=name, model=key,
                          detail='driver raised on a program of the truth catalogue')
             return
-        ok = codec.close(got[1], want, TRUTH_RTOL)
+        ok = codec.close(got[1], want, TRUTH_RTOL, self._abs_tol if key == 'forward' else 0.0)
         self.verdict('C04', oracle, ev, ok, got=brief(got), want=codec.short(want), driver=name, model=key)
         self.count('truth_model:%s' % key)
 
